@@ -19,6 +19,9 @@ CHECKS = {
  "C05": ("Runtime post-condition on design_matrices for designs with a group part: (A) on any data, every row of every (e|g) block is zero outside the slot of its own group cell and the slot holds the effect columns (numeric effects = shadow design of `0 + e`, categorical effects = level indicators), one term per (effect term, grouping term) with the lme4 implicit intercept, cells sorted/lexicographic; (B) on fully crossed frames the stacked blocks of each grouping factor are linearly independent and span KhatriRao(indicators(g), model space of the effect expression). 25 effect expressions x 8 grouping expressions exhaustively, plus random combinations.",
          "(B) carries one known finding (group-coding-simplified), matched only where a clean re-implementation of the full coding rule disagrees with the simplified rule; all other inputs are judged. Numerical decisions as in C03.",
          "runtime post-condition monitor with block-structure oracle, shadow executions of the real code and linear-algebra span oracle"),
+ "C06": ("Runtime post-condition on every evaluate_new_data of a common or group matrix: five shadow self-evaluations of the matrix's own training rows (random subset, permutation, repetition, single row, all rows of / lacking one level) must reproduce design_matrix[idx] with the same columns; plus fit-once trace on every stateful-transform instance and frozen-coding trace on every component. Driven by seeded random designs over stateful / nested / interacting transforms, C/T/S with references and levels=, ordered categoricals, operator-written formulas and group-specific terms, and by the repository's tests (advisory there).",
+         "The oracle is the training matrix itself (no expected values); equality rtol 1e-10. Says nothing about transforms outside the generator's vocabulary.",
+         "relational runtime post-condition (shadow self-evaluation on hooked evaluate_new_data) + fit-once / frozen-coding trace monitors"),
 }
 NOT_APPLICABLE = {}
 PENDING = [f"C{i:02d}" for i in range(1, 18) if f"C{i:02d}" not in CHECKS]
